@@ -4,7 +4,7 @@ C04 / C10 — model of the client negotiation state machine of `QXmppOutgoingCli
 base/QXmppStreamManagement.cpp `StreamAckManager`, and the parts of `QXmppClient` /
 `QXmppRosterManager` that react to `connected`).
 
-The model follows the code that exists (tree after the fixes e0bbad9, fa0779c, 7771c2d, 7a677f2, e363fe9, c590ae4, 7c60ff5, a739aa9, e3d3c0f, 8d68c05):
+The model follows the code that exists (tree after the fixes e0bbad9, fa0779c, 7771c2d, 7a677f2, e363fe9, c590ae4, 7c60ff5, a739aa9, e3d3c0f, 8d68c05, dcf656f):
 * `handleStream` starts XEP-0078 authentication on a header without `version` — unless TLS is required and the link is
   not encrypted: then it warns and disconnects;
 * the idle listener rejects EVERY element but stream features and stream errors - whatever its namespace - received on an
@@ -212,7 +212,7 @@ structure St where
   smEnabled : Bool := false
   smResumed : Bool := false
   canResume : Bool := false
-  /-- C2sStreamManager::m_resumeHost/m_resumePort hold a `location` (only ever overwritten by another location) -/
+  /-- C2sStreamManager::m_resumeHost/m_resumePort hold the `location` of the last `<enabled/>` -/
   resumeLoc : Bool := false
   /-- the address of the current / last TCP connection attempt -/
   target : Addr := .configured
@@ -395,8 +395,8 @@ def handleFeatures (s : St) (f : Features) : R :=
 
 /-- `C2sStreamManager::onEnabled` -/
 def onSmEnabled (s : St) (resume : Bool) (loc : Bool := false) : R :=
-  -- `setResumeAddress` only when resumable and a location is given; an `<enabled/>` without location leaves the stored one
-  enableAck { s with canResume := resume, smEnabled := true, resumeLoc := s.resumeLoc || (resume && loc) }
+  -- the resume address belongs to the stream enabled here: stored when resumable and a location is given, forgotten otherwise (dcf656f)
+  enableAck { s with canResume := resume, smEnabled := true, resumeLoc := resume && loc }
 
 /-- `C2sStreamManager::onResumed` -/
 def onSmResumed (s : St) : R :=
